@@ -341,10 +341,11 @@ def mk_mut(dec, sep, segwit=False):
         r0 = impl_call(dec, h, orig)
         if r0[0] != "ok":
             return None
-        if segwit:
+        if segwit and k == 4:
             p = orig.lower().rfind(sep)
             if (orig.lower()[p + 1] == "q") != (mut.lower()[p + 1] == "q"):
-                return None          # Bech32 <-> Bech32m switch: outside the code's guarantee (see Props/C10.v)
+                return None          # four substitutions switching Bech32 <-> Bech32m: outside the code's
+                                     # guarantee (Props/C10.v segwit_detects_4_refuted); three are guaranteed
         r1 = impl_call(dec, h, mut)
         if r1[0] == "ok":
             return "%d substituted data characters not detected: %r -> %r decodes to %r" % (k, orig, mut, r1[1])
